@@ -646,6 +646,19 @@ class Interp:
             return len(a.items) == len(b.items) and all(self.equal(x, y) for x, y in zip(a.items, b.items))
         if isinstance(a, tuple) and isinstance(b, tuple):
             return len(a) == len(b) and all(self.equal(x, y) for x, y in zip(a, b))
+        if isinstance(a, ADict) and isinstance(b, ADict):
+            if a is b:
+                return True
+            if len(a.items) != len(b.items):
+                return False
+            for k, v in a.items.items():
+                if k not in b.items or not self.equal(v, b.items[k]):
+                    return False
+            return True
+        if isinstance(a, ASet) and isinstance(b, ASet):
+            return len(a.items) == len(b.items) and all(any(self.equal(x, y) for y in b.items) for x in a.items)
+        if isinstance(a, ExcVal) and isinstance(b, ExcVal):
+            return a is b
         if isinstance(a, (AClass, BuiltinType)) or isinstance(b, (AClass, BuiltinType)):
             return a == b
         if isinstance(a, AObj) and isinstance(b, AObj):
@@ -1675,6 +1688,16 @@ def call_builtin(it: Interp, name, args, kwargs, node=None):
         raise Unsupported(f"next() on {v!r}")
     if name in ("deepcopy", "copy"):
         return copy_abs(it, args[0], deep=(name == "deepcopy"), memo={})
+    if name == "filter":
+        fn, seq = args
+        items = it.iterate(seq)
+        if fn is None:
+            return AList([x for x in items if it.truth(x)], tag="genexp")
+        return AList([x for x in items if it.truth(it.call_value(fn, [x], {}))], tag="genexp")
+    if name == "map":
+        fn = args[0]
+        seqs = [it.iterate(a) for a in args[1:]]
+        return AList([it.call_value(fn, list(t), {}) for t in zip(*seqs)], tag="genexp")
     if name in ("print",):
         return None
     if name == "repr":
